@@ -1,2 +1,57 @@
 //! Verification harnesses compiled into heathcliff::util/rlwe as child module `verif_v`.
 #![allow(unused, dead_code, non_snake_case)]
+use super::*;
+
+#[cfg(kani)]
+mod proofs {
+    use super::*;
+    use crate::verif_v::lits;
+    use rand::RngCore;
+
+    /// The randomness source as a nondeterministic stub: every word / byte it returns is an arbitrary value (the documented
+    /// contract of an RNG); at most `budget` words are drawn (paths that would draw more are outside the bound: the rejection
+    /// loops of rand's uniform integer sampling are unbounded in principle).
+    struct SymRng { calls: usize, budget: usize }
+    impl RngCore for SymRng {
+        fn next_u32(&mut self) -> u32 { self.calls += 1; kani::assume(self.calls <= self.budget); kani::any() }
+        fn next_u64(&mut self) -> u64 { self.calls += 1; kani::assume(self.calls <= self.budget); kani::any() }
+        fn fill_bytes(&mut self, dest: &mut [u8]) { let mut i = 0; while i < dest.len() { dest[i] = kani::any(); i += 1; } }
+        fn try_fill_bytes(&mut self, dest: &mut [u8]) -> Result<(), rand::Error> { self.fill_bytes(dest); Ok(()) }
+    }
+
+    fn signed_of(r: u64, q: u64) -> i64 { if r > q / 2 { r as i64 - q as i64 } else { r as i64 } }
+
+    // @harness id=C16 tier=quick unwind=10 timeout=1800 fs=4096
+    // @desc sampled polynomials are well-formed for EVERY output of the randomness source: ternary and error (centred binomial) samples carry the same small signed value in every RNS component (ternary in {-1,0,1}, |error| <= 21), uniform samples lie strictly below each modulus
+    // @bounds N=2, coefficient moduli {97,113}; randomness source = arbitrary words/bytes, at most 6 word draws per call (rejection loops of rand's integer sampling beyond that are outside the bound); sampler chosen symbolically
+    // @funcs sample::ternary, sample::centered_binomial, sample::uniform, rand::distributions::Uniform::sample (as compiled), hamming_weight
+    // @stubs the RNG is a nondeterministic stub (arbitrary values); HeContext::get_context_data -> linear search over the literal chain; alloc::sync::Arc::drop_slow -> no-op
+    #[kani::proof]
+    #[kani::stub(crate::context::HeContext::get_context_data, crate::context::verif_v::get_context_data_stub)]
+    #[kani::stub(alloc::sync::Arc::drop_slow, crate::verif_v::arc_drop_slow_noop)]
+    fn c16_samplers_wellformed() {
+        let ctx = lits::ctx_bfv_n2_2p1();
+        let cd = ctx.first_context_data().unwrap();
+        let parms = cd.parms();
+        let mut rng = SymRng { calls: 0, budget: 6 };
+        let mut d = [0u64; 4];
+        let which: u8 = kani::any();
+        let i: usize = kani::any(); kani::assume(i < 2);
+        match which {
+            0 => { sample::ternary(&mut rng, parms, &mut d);
+                   let a = signed_of(d[i], 97); let b = signed_of(d[2 + i], 113);
+                   kani::cover!(a == -1);
+                   assert!(d[i] < 97 && d[2 + i] < 113 && a == b && a >= -1 && a <= 1); }
+            1 => { sample::centered_binomial(&mut rng, parms, &mut d);
+                   let a = signed_of(d[i], 97); let b = signed_of(d[2 + i], 113);
+                   kani::cover!(a == -21); kani::cover!(a == 21);
+                   assert!(d[i] < 97 && d[2 + i] < 113 && a == b && a >= -21 && a <= 21); }
+            _ => { sample::uniform(&mut rng, parms, &mut d);
+                   kani::cover!(d[i] == 96);
+                   assert!(d[i] < 97 && d[2 + i] < 113); }
+        }
+        std::mem::forget(cd); std::mem::forget(ctx);
+    }
+
+    #[cfg(test)] include!("/verif/.build/playback/util_rlwe_v.rs");
+}
